@@ -234,6 +234,12 @@ func (s *Session) evalIdent(se *SpecEnv, name string) Val {
 	if v, ok := s.lookupVar(se, name); ok {
 		return v
 	}
+	if _, ok := s.eng.db.Ghosts[name]; ok {
+		return Val{Typ: nil, L: []T{s.ghostGet(se.st, name)}}
+	}
+	if _, ok := etcdGhosts[name]; ok {
+		return Val{Typ: nil, L: []T{s.ghostGet(se.st, name)}}
+	}
 	// package-level constant or variable
 	if se.pkg != nil {
 		if o := se.pkg.Scope().Lookup(name); o != nil {
@@ -654,6 +660,13 @@ func (s *Session) evalCall(se *SpecEnv, x *SCall) Val {
 		case "unixnano":
 			v := s.evalSpec(se, x.Args[0])
 			return untypedInt(s.unixNano(v))
+		case "str": // str(b): the string handle denoted by a []byte value (contents-determined)
+			v := s.evalSpec(se, x.Args[0])
+			if len(v.L) == 3 {
+				h := s.heapGet(se.st, heapName("A", "byte", ""), arrSort(arrSort(SInt)))
+				return scalar(types.Typ[types.String], s.uf("bytes2str", SInt, Select(h, v.L[0]), v.L[1], v.L[2]))
+			}
+			return scalar(types.Typ[types.String], v.T0())
 		case "isnil":
 			v := s.materialize(s.evalSpec(se, x.Args[0]))
 			return boolVal(Eq(v.L[0], I(0)))
@@ -679,6 +692,13 @@ func (s *Session) evalCall(se *SpecEnv, x *SCall) Val {
 				specFail("typeis: use typeisptr for pointer types")
 			}
 			return boolVal(And(Not(Eq(v.T0(), I(0))), Eq(s.uf("typeof", SInt, v.T0()), s.typeTag(t))))
+		case "gocall": // gocall("pkg.Func", args...): the value the engine gives to a deterministic library call
+			name := x.Args[0].(*SStr).V
+			var args []T
+			for _, a := range x.Args[1:] {
+				args = append(args, s.materialize(s.evalSpec(se, a)).L...)
+			}
+			return scalar(types.Typ[types.String], s.uf("pure:"+name, SInt, args...))
 		case "uf": // uf("name", args...) : uninterpreted integer function (ghost abstraction)
 			name := x.Args[0].(*SStr).V
 			var args []T
